@@ -14,7 +14,9 @@ RULE = ("cases = (max_bytes, backup_count, pre-existing active file and backups 
         "VERIF_SEED plus a small exhaustive block; non-trivial = at least one rollover happened "
         "or a prefix was applied; distinct by content hash")
 ASSUMPTIONS = [
-    "payloads are ASCII text (bytes on disk = characters; the code compares tell()+len(raw_data))",
+    "payloads are ASCII text (bytes on disk = characters; the code compares tell()+len(raw_data)), or — a quarter of the cases — "
+    "UTF-8 bytes with multi-byte characters as the Redirector delivers them (the case then carries the byte string, so every "
+    "length is a byte count on both sides)",
     "strftime is a parameter: the formatted prefix '{time} [{pid}] | ' is handed to the model",
     "the directory is private to the stream (no concurrent external rotation)",
     "TimedRotatingFileStream / WatchedFileStream are not modelled (C20 names FileStream)",
@@ -43,8 +45,21 @@ def gen_case(rng, big=False):
         fmt = rng.choice(["T", "%%", "t=%Y", ""]) if use_fmt else None      # "" is a format too (an empty ini value)
         writes.append({"data": data, "fmt": fmt, "pid": rng.choice([1, 42, 31337]),
                        "ts": rng.choice([0, 86400 * 365, 1700000000])})
-    return {"mb": mb, "n": n, "k": k, "active0": active0, "backups": backups, "writes": writes,
-            "reopen_at": rng.choice([None, None, rng.randint(0, len(writes))])}
+    c = {"mb": mb, "n": n, "k": k, "active0": active0, "backups": backups, "writes": writes,
+         "reopen_at": rng.choice([None, None, rng.randint(0, len(writes))])}
+    if rng.random() < 0.25:
+        # what the Redirector delivers: bytes.  Payloads with two- and three-byte UTF-8 characters; the case keeps every
+        # payload as the text whose characters are those BYTES (latin-1 view), so that lengths are byte counts everywhere
+        c["as_bytes"] = True
+        for w in writes:
+            t = "".join(rng.choice(["\u00e9", "\u20ac", "\u00fc"]) if (ch != "\n" and rng.random() < 0.4) else ch for ch in w["data"])
+            b = t.encode("utf8")
+            hi = max(1, (mb - 1) if mb > 1 else mb + 2)
+            while len(b) > max(hi, 3) and len(t) > 1:          # keep single writes below max_bytes as before
+                t = t[:-1]
+                b = t.encode("utf8")
+            w["data"] = b.decode("latin-1")
+    return c
 
 
 def generate(rng, tier):
@@ -81,12 +96,12 @@ def _prefix(w):
     return "%s [%s] | " % (datetime.fromtimestamp(w["ts"]).strftime(w["fmt"]), w["pid"])
 
 
-def _snapshot(fn, k):
+def _snapshot(fn, k, as_bytes=False):
     def rd(p):
         if not os.path.exists(p):
             return None
         with open(p, "rb") as fh:
-            return fh.read().decode("utf8", "replace")
+            return fh.read().decode("latin-1") if as_bytes else fh.read().decode("utf8", "replace")
     return {"active": rd(fn) or "", "backups": [rd("%s.%d" % (fn, i)) for i in range(1, k + 1)]}
 
 
@@ -116,8 +131,9 @@ def impl_run(case):
             if case.get("reopen_at") == j:
                 s.close()
                 s.open()
-            s({"data": w["data"], "pid": w["pid"], "name": "stdout", "timestamp": w["ts"]})
-            steps.append(_snapshot(fn, case["k"]))
+            data = w["data"].encode("latin-1") if case.get("as_bytes") else w["data"]
+            s({"data": data, "pid": w["pid"], "name": "stdout", "timestamp": w["ts"]})
+            steps.append(_snapshot(fn, case["k"], bool(case.get("as_bytes"))))
         for s in streams.values():
             s.close()
         return {"steps": steps}
